@@ -9,6 +9,7 @@ import KafkaVerif.Base.Proto
 import KafkaVerif.Model.Routing
 import KafkaVerif.Model.Discover
 import KafkaVerif.Model.Split
+import KafkaVerif.Model.RoundTrip
 import KafkaVerif.Spec.Routing
 import KafkaVerif.Gen.Routing
 
@@ -320,6 +321,47 @@ def followModel (script : List String) : String :=
     | none => "within=0 gap=1"   -- the loop left before the script ended: no refresh ever follows the move
 where good0 : List KV.Discover.DEvent := [.tick, .answer ⟨0, [⟨0, "b0", 9092, ""⟩], "", 0, []⟩]
 
+/-! ### `rtmeta`: metadata requests through roundTrip -/
+
+/-- the topic the fake cluster auto-creates: one partition led by the controller -/
+def createdTopic (m : MResponse) (n : String) : MTopic := ⟨0, n, false, [⟨0, 0, m.controller, [m.controller], [m.controller], []⟩]⟩
+
+/-- the cluster's metadata after the broker handled an auto-creating request for `names` -/
+def afterCreate (m : MResponse) (names : List String) (fakeAuto : Bool) : MResponse :=
+  if !fakeAuto then m else
+  names.foldl (fun acc n => if acc.topics.any (·.name == n) then acc else { acc with topics := acc.topics ++ [createdTopic m n] }) m
+
+open KV.RoundTrip in
+def rtmetaModel (names : Option (List String)) (auto fakeAuto : Bool) (m : MResponse) : String :=
+  let s := update {} (some m) false
+  match metadataDecision s ⟨names, auto⟩ with
+  | .fromCache res => s!"asked=0 {showMTopics res.topics} after={showMTopics res.topics}"
+  | .askBroker =>
+    let ns := names.getD []
+    let m' := afterCreate m ns fakeAuto
+    -- the broker answers in request order, partitions in the fake's (descending) order; the caller gets it as is
+    let direct := ns.map fun n => match m'.topics.find? (·.name == n) with
+      | some t => { t with partitions := sortBy (fun a b => decide (a.index > b.index)) t.partitions }
+      | none => unknownTopic n
+    -- … then roundTrip waits until the created topics are in the cache: the follow-up is served from it
+    let after := filterMetadata names (normalize m')
+    s!"asked=1 {showMTopics direct} after={showMTopics after.topics}"
+  | .cacheError => "err"
+  | .noCache => "panic"
+
+def rtmetaHolds (names : Option (List String)) (auto fakeAuto : Bool) (m : MResponse) (impl : String) : Bool :=
+  let unknownAsked := match names with
+    | some ns => ns.any fun n => (byName m n).isNone
+    | none => false
+  let wantAsked := auto && unknownAsked
+  let m' := if wantAsked then afterCreate m (names.getD []) fakeAuto else m
+  let wantAfter := specFilter names m'
+  match impl.splitOn " after=" with
+  | [front, after] =>
+    after == wantAfter && front.startsWith (if wantAsked then "asked=1 " else "asked=0 ") &&
+    (wantAsked || front == s!"asked=0 {specFilter names m}")
+  | _ => false
+
 /-! ### dispatcher -/
 
 def kv (pfx : String) (s : String) : Option String :=
@@ -391,6 +433,12 @@ def step (line : String) : String :=
         answer (sendModel a boot m down vt coords q)
           (sendHolds a.apiKey a.split boot m down (c1, c2) vt coords q impl)
       | _, _, _, _, _, _, _, _ => "bad-op"
+    | ["rtmeta", ns, auto, fauto, m] =>
+      match parseMeta m with
+      | some m =>
+        let names := if ns == "nil" then none else some (splitD ns ",")
+        answer (rtmetaModel names (auto == "1") (fauto == "1") m) (rtmetaHolds names (auto == "1") (fauto == "1") m impl)
+      | none => "bad-op"
     | ["follow", _, faults] =>
       match kv "faults=" faults with
       | some fs => answer (followModel (splitD fs ",")) (impl == "within=1 gap=1")
